@@ -271,6 +271,12 @@ def run(chk):
         prepsim.run(chk)
     except Exception as e:  # noqa
         chk.extended('prepare_sim.prepare_slab: subsample compaction, npstartA/npoutA re-basing and the hand-over to AbacusHOD staging', False, f'not evaluated: {type(e).__name__}: {str(e)[:300]}')
+    # ---- extended coverage: configuration contract writer / reader (spec/HodConfig.tla)
+    try:
+        import hodconfig
+        hodconfig.run(chk)
+    except Exception as e:  # noqa
+        chk.extended('prepare_sim.main / AbacusHOD configuration contract: redshift class, subsample directory, multi-tracer flag', False, f'not evaluated: {type(e).__name__}: {str(e)[:300]}')
     chk.part('staging_runs', runs=nrun, unsorted_arrangements=nontriv)
     chk.add_cases(nrun, nontrivial=nontriv, traces=nrun)
 
